@@ -280,6 +280,10 @@ def instances(tier):
     for a, b in itertools.product(ops2, ops2):
         yield ("MI", f"({a}) / ({b})" if not a.startswith("-") else f"{a} / ({b})", ctx_all,
                expect_structural(f"({a}) * (1 / ({b}))" if not a.startswith("-") else f"{a} * (1 / ({b}))"), "inverse")
+    # boundary denominators: the documented form has no exception for 1, 0 or fractions
+    for a, b in itertools.product(ops2 + ["1", "0"], ["1", "1.0", "0", "0.5", "10", "1x", "x^1", "x^0"]):
+        yield ("MI", f"({a}) / ({b})" if not a.startswith("-") else f"{a} / ({b})", ctx_all,
+               expect_structural(f"({a}) * (1 / ({b}))" if not a.startswith("-") else f"{a} * (1 / ({b}))"), "inverse-boundary-denominator")
     for a, b in itertools.product(ops2[:5], ["x", "(y + 1)", "3x", "x^2"]):
         yield ("MI", f"({a}) / -({b})", ctx_all, expect_structural(f"({a}) * (-1 / ({b}))"), "inverse-negative-denominator")
     # 7. restate subtraction a - b -> a + (-b), and back
@@ -541,7 +545,7 @@ def run(tier, seed):
         "evaluations": acc.n["applications"],
         "distinct_nontrivial": acc.n["instances"],
         "rule": "every instantiation of the documented schemas (swap, flip, regroup, fold incl. the documented alternate tree forms, "
-                "factor-out, constants-only factoring, distribute, inverse incl. negative denominator, restate and back, variable "
+                "factor-out, constants-only factoring, distribute, inverse incl. negative and boundary (1, 1.0, 0, 0.5, x^0 ...) denominators, restate and back, variable "
                 "multiply, move addend, divide coefficient, and the documented refusals) over the coefficient / variable / exponent / "
                 "operand alphabets, each embedded in the context set; evaluations = rule applications (schema x context); "
                 "distinct_nontrivial = distinct schema instances",
